@@ -479,9 +479,16 @@ static char logring[LOGRING][256];
 static int logpos = 0;
 static pthread_mutex_t log_mx = PTHREAD_MUTEX_INITIALIZER;
 atomic_long log_lines = 0;
+atomic_int mon_log_errors = 0;
 NOINST void __wrap_syslog(int pri, const char *fmt, ...) {
 	char line[1200];
 	va_list ap; va_start(ap, fmt); vsnprintf(line, sizeof line, fmt, ap); va_end(ap);
+	if ((pri & 7) <= 3 && mon_log_errors) {
+		char esc[300]; int k = 0;
+		for (const char *c = line; *c && k < 290; c++) { if (*c == '"' || *c == '\\') esc[k++] = '\''; else if ((unsigned char)*c < 32) esc[k++] = ' '; else esc[k++] = *c; }
+		esc[k] = 0;
+		ev("\"e\":\"logerr\",\"line\":\"%s\"", esc);
+	}
 	__real_pthread_mutex_lock(&log_mx);
 	snprintf(logring[logpos % LOGRING], 256, "<%d> %s", pri, line);
 	logpos++; log_lines++;
